@@ -314,6 +314,7 @@ class FileStorage(
                 self._file, file_name, index, tindex, stop,
                 read_only=read_only,
             )
+            self._ltid = tid
             self._save_index()
 
         self._ltid = tid
@@ -375,7 +376,7 @@ class FileStorage(
         index_name = self.__name__ + '.index'
         tmp_name = index_name + '.index_tmp'
 
-        self._index.save(self._pos, tmp_name)
+        self._index.save(self._pos, tmp_name, self._ltid)
 
         try:
             try:
@@ -512,6 +513,14 @@ class FileStorage(
 
         tid = self._sane(index, pos)
         if not tid:
+            return None
+
+        saved_tid = info.get('tid')
+        if saved_tid is not None and saved_tid != tid:
+            # Positions can coincide again after a pack; the index was
+            # saved after another transaction than the one now at pos.
+            logger.warning("Ignoring index for %s (saved for another"
+                           " transaction)", file_name)
             return None
 
         return index, pos, tid
